@@ -69,6 +69,41 @@ class Ctx:
         raise Inconclusive('solver answered unknown: ' + self.solver.reason_unknown())
 
 
+def cross_check(ctx, conjs, tag, timeout_s=300):
+    """re-decide one verification condition with the other installed solvers (z3 4.8.12 CLI, cvc5): the formula
+    is dumped as SMT-LIB2 with (set-logic ALL); any `(error` line or a verdict different from `expect` is an
+    engine error.  Returns {solver: verdict}."""
+    import subprocess, os, tempfile
+    s = z3.Solver()
+    for c in ctx.base:
+        s.add(c)
+    for c in conjs:
+        if c is True:
+            continue
+        s.add(c)
+    text = '(set-logic ALL)\n' + s.sexpr() + '\n(check-sat)\n'
+    fd, path = tempfile.mkstemp(prefix='vc_%s_' % tag, suffix='.smt2')
+    os.write(fd, text.encode())
+    os.close(fd)
+    out = {}
+    try:
+        for name, cmd in (('z3-4.8.12', ['/usr/bin/z3', '-smt2', '-T:%d' % timeout_s, path]), ('cvc5', ['cvc5', '--lang=smt2', '--tlimit=%d' % (timeout_s * 1000), path])):
+            try:
+                r = subprocess.run(cmd, capture_output=True, text=True, timeout=timeout_s + 30)
+                txt = (r.stdout + r.stderr).strip()
+                if '(error' in txt:
+                    out[name] = 'error: ' + txt[:200]
+                else:
+                    out[name] = txt.split()[0] if txt else 'no answer'
+            except subprocess.TimeoutExpired:
+                out[name] = 'timeout'
+            except FileNotFoundError:
+                out[name] = 'not installed'
+    finally:
+        os.remove(path)
+    return out
+
+
 class State:
     __slots__ = ('guard', 'heap', 'model', 'aux', 'dom', 'mvars', 'chk')
 
